@@ -20,6 +20,7 @@ ASSUMPTIONS = []
 
 
 def run(prog, chk):
+    chk.rule(attr_order_stable, prog, chk)
     chk.rule(X.check_sinks, prog, chk)
     chk.rule(X.check_readers, prog, chk)
     chk.rule(X.text_bypass, prog, chk)
@@ -120,3 +121,37 @@ def generated_comment_ops(prog, chk):
     from props.C19 import TEXT_ALTERING
     seen = collections.Counter(c.path.split("::")[-1] for (bb, t, c) in b.call_sites(lambda c: c.path.split("::")[-1] in TEXT_ALTERING and ("str" in c.path.lower() or "string" in c.path.lower())))
     chk.ob(dict(seen) == {"replace": 2}, "A14.debug-echo", "element_events", b.where(), "the debug echo is sanitised by the two reviewed replace() calls (quotes -> backticks, all angle brackets removed)", f"the string operations that sanitise the --debug source echo changed ({dict(seen)}, reviewed: two replace() calls): a `>` or `-->` inside an attribute value can now end the comment early, so the output is not stable under re-processing")
+
+
+
+def attr_order_stable(prog, chk):
+    """the order in which an element's attributes are written is reproduced when the output is read back and every
+    element is rebuilt by successive inserts: keys that share an ordering slot keep the order they were given.  That
+    holds when no two named keys share a slot, or when insert orders with a *stable* sort; a slot shared by two keys
+    together with an insert that places a new key in front of its equals (a lower-bound search, an unstable sort) swaps
+    the pair on every pass"""
+    from sa import hirq
+    AM = "svgdx::types::AttrMap"
+    pr = prog.maybe_body(AM + "::priority")
+    ins = prog.maybe_body(AM + "::insert")
+    if pr is None or ins is None:
+        chk.undecided("A16.attr-order", "AttrMap", "src/types.rs", "AttrMap::priority / AttrMap::insert are not there under these names: how attributes are ordered is not read here")
+        return
+    chk.touch(pr, ins)
+    slots = {}
+    for m, arms in hirq.str_matches(prog.hir[pr.id]):
+        for ls, a in arms:
+            ints = [n["lit"].get("int") for n in hirq.exprs(a["body"], "Lit") if isinstance(n.get("lit"), dict) and "int" in n["lit"]]
+            if len(ints) != 1:
+                continue
+            for l in ls:
+                if l != hirq.WILD:
+                    slots.setdefault(ints[0], []).append(l)
+    shared = {k: v for k, v in slots.items() if len(v) > 1}
+    region = [ins] + [b for b in prog.bodies.values() if b.path.startswith(AM + "::") and ins.call_sites(R.path_is(b.path))]
+    stable = any(b.call_sites(lambda c: c.path.split("::")[-1] in ("sort_by_key", "sort_by", "sort", "sort_by_cached_key") and "slice" in c.path) for b in region)
+    placed = any(b.call_sites(lambda c: c.path.split("::")[-1] in ("partition_point", "binary_search_by_key", "binary_search_by", "sort_unstable_by_key", "sort_unstable_by", "sort_unstable")) for b in region)
+    if shared and placed and not stable:
+        chk.bad("A16.attr-order", "AttrMap::insert", ins.where(), f"the keys {sorted(x for v in shared.values() for x in v)} share an ordering slot and insert() places a new key by search / unstable sort rather than by a stable sort: of two such attributes the one inserted later ends up first, so writing an element and reading it back swaps them - on every pass")
+    else:
+        chk.ok("A16.attr-order", "AttrMap::insert", ins.where(), f"{len(slots)} named slots, shared: {sorted(shared.values()) or 'none'}; insert orders by {'a stable sort' if stable else 'position'}")
